@@ -26,7 +26,7 @@ ASSUMPTIONS = [
 REQUIRED = [
     "calls.Av.count", "calls.Av.of_length", "calls.Av.up_to_length", "calls.Av.first", "calls.Av.enumeration",
     "calls.Av.__contains__", "calls.Av.is_subclass", "calls.Av._ensure_level", "hook.levels_checked",
-    "op.clear", "op.iter_resumed", "op.rehandle", "op.in_sweep", "faults.injected", "histories.mesh", "histories.classical", "subclass.true", "subclass.false",
+    "op.clear", "op.iter_resumed", "op.rehandle", "op.in_sweep", "op.cli_count", "faults.injected", "histories.mesh", "histories.classical", "subclass.true", "subclass.false",
 ]
 MIN_NONTRIVIAL = 100
 CTX = None
@@ -393,6 +393,19 @@ def run_ops(ctx, raw_enc, ops):
                     report(f"{t} in class = {got}, want {t in lv[n]} (asked on a handle whose cache is shallower than the permutation)", known)
                     break
             ctx.count("op.in_sweep")
+        elif kind == "cli_count":
+            # `permtools count <basis>` through the argument parser; the endless command is stopped from the output side
+            if raw and avmodel.is_classical(raw) and all(1 <= len(q) <= 9 for q in raw):
+                from ..cliutil import run_main
+
+                k = min(op[1], N + 1)
+                text = "_".join("".join(str(v + 1) for v in q) for q in raw)
+                out, _code = run_main(["count", text], stop_after_commas=k)
+                terms = [t.strip() for t in out.split("\n", 1)[-1].split(",") if t.strip()]
+                ctx.ev()
+                ctx.count("op.cli_count")
+                if terms != [str(len(l)) for l in lv[:k]]:
+                    report(f"`permtools count {text}` printed {terms}, avoiders of the raw basis: {[len(l) for l in lv[:k]]}", known)
         elif kind == "in_other":
             for junk in (tuple(op[1]), list(op[1]), "012", 3, None):
                 ctx.ev()
@@ -536,8 +549,8 @@ def rand_mesh(rng, kmax=3):
 def rand_ops(rng, raw_plain, N, nops):
     ops = []
     other_pool = [[[0, 1, 2]], [[0, 2, 1]], [[1, 0]], [[0, 1]], [[2, 1, 0], [0, 1, 2, 3]], [[1, 3, 0, 2], [2, 0, 3, 1]], [[0]]]
-    kinds = ["count", "of_length", "up_to", "first", "enum", "in", "in_other", "fault", "clear", "rehandle", "old_handle", "other", "iter_open", "iter_adv", "iter_drain"]
-    weights = [16, 14, 6, 8, 5, 11, 2, 6, 5, 4, 2, 5, 12, 11, 4]
+    kinds = ["count", "of_length", "up_to", "first", "enum", "in", "in_other", "fault", "clear", "rehandle", "old_handle", "other", "iter_open", "iter_adv", "iter_drain", "cli_count"]
+    weights = [16, 14, 6, 8, 5, 11, 2, 6, 5, 4, 2, 5, 12, 11, 4, 3]
     for kind in rng.choices(kinds, weights, k=nops):
         n = rng.choice([0, 1, 2, N, N - 1, rng.randint(0, N)])
         if kind in ("count", "of_length"):
@@ -552,6 +565,8 @@ def rand_ops(rng, raw_plain, N, nops):
             ops.append(["in", rand_perm(rng, rng.choice([N, N, N - 1, rng.randint(0, N)]))])
         elif kind == "in_other":
             ops.append(["in_other", rand_perm(rng, 3)])
+        elif kind == "cli_count":
+            ops.append(["cli_count", rng.randint(1, N + 1)])
         elif kind == "fault":
             what = rng.choice(["count", "count", "of_length", "up_to", "in"])
             arg = rand_perm(rng, rng.choice([N, N - 1])) if what == "in" else rng.choice([N, N, N - 1, rng.randint(1, N)])
